@@ -30,6 +30,7 @@ from .. import common, tlc
 from .. import c12_render as R
 
 ALL_CTX = ['if', 'else', 'for', 'while', 'with', 'try', 'fin']
+ALL_TAILS = ['UE', 'CE', 'VE0', 'VE2', 'RE1', 'hdr']
 
 CFG = '''SPECIFICATION Spec
 CONSTANT Mode = "%(mode)s"
@@ -62,7 +63,7 @@ def _q(xs):
 
 def _cfg(**kw):
     p = dict(mode='scenario', minchain=1, maxchain=2, maxcaller=1, callerctxs=_q(ALL_CTX), mininner=0, maxinner=1,
-             innerctxs=_q(ALL_CTX), tails=_q(['UE', 'CE', 'hdr']), links=_q(['conv', 'dnc', 'allow']),
+             innerctxs=_q(ALL_CTX), tails=_q(ALL_TAILS), links=_q(['conv', 'dnc', 'allow']),
              preu=len(R.PRE_U), prea=len(R.PRE_A), maxframes=5)
     for k, v in kw.items():
         p[k] = _q(v) if isinstance(v, (list, tuple)) else v
@@ -125,7 +126,7 @@ class Modules(object):
         U = importlib.import_module(uname)
         A = importlib.import_module(aname)
         self.loaded += [uname, aname]
-        for nm in ('UE', 'CE', 'CM', 'dnc'):
+        for nm in R.EXC_NAMES + ['CM', 'dnc']:
             setattr(A, nm, getattr(U, nm))
         fobj = []
         for i, fn in enumerate(r['fns'], 1):
@@ -287,7 +288,7 @@ class Runner(object):
                 #     from that statement: it must be mapped to that statement's line
                 text = gsrc[loc.lineno - 1]
                 toks = R.tokens(text)
-                if raise_line and ('ag__.ld(UE)' in text or 'ag__.ld(CE)' in text):
+                if raise_line and re.search(r'ag__\.ld\((%s)\)' % '|'.join(R.EXC_NAMES), text):
                     toks = toks | {raise_line[0]}
                 if len(toks) == 1:
                     t = next(iter(toks))
@@ -342,7 +343,8 @@ class Runner(object):
         ouser = _user_frames(otb, files)
         spec_orig = [[f['file'], f['fn'], f['line']] for f in rec['orig']]
         t0 = type(e0)
-        init = 'exc' if t0.__init__ is Exception.__init__ else ('py' if hasattr(t0.__dict__.get('__init__'), '__code__') else 'c')
+        init = ('exc' if t0.__init__ is Exception.__init__ else 'py' if hasattr(t0.__dict__.get('__init__'), '__code__')
+                else 'c' if t0.__module__ == 'builtins' else 'cinh')
         if ouser != spec_orig or t0.__name__ != rec['kind'] or init != rec['init'] or \
                 (rec['msg'] != '?' and str(e0) != rec['msg']):
             raise common.MachineryError('model vs CPython: unconverted run gave %s %r init=%s %s, specification says %s %r init=%s %s\n%s' % (
@@ -615,7 +617,7 @@ def _run(rep, tier, only=None):
     if errs:
         raise common.MachineryError(errs[0])
     if not only:      # vacuity: every value of every scenario dimension was exercised
-        want = dict(kind={'UE', 'CE', 'KeyError', 'IndexError', 'ZeroDivisionError', 'TypeError', 'AttributeError', 'ValueError'},
+        want = dict(kind={'UE', 'CE', 'VE0', 'VE2', 'RE1', 'KeyError', 'IndexError', 'ZeroDivisionError', 'TypeError', 'AttributeError', 'ValueError'},
                     link={'conv', 'dnc', 'allow'}, ctx=set(ALL_CTX), type={'same', 'keysub', 'staging'},
                     depth={1, 2, 3, 4}, nestdepth={0, 1, 2, 3})
         for d, w in want.items():
